@@ -99,13 +99,16 @@ Definition MO := M obs.
 Definition subscribed_kinds (w : wld) : list okind :=
   flat_map (fun i => match nth_error (objs w) i with Some o => [kind_of o] | None => [] end) (subs w).
 
-Definition new_observer (I : instance) (k : okind) : MO nat :=
+(** [sub = false]: the constructor's [subscribe=False] (the singleton guard
+    still runs; the object is created but not subscribed). *)
+Definition new_observer_gen (I : instance) (k : okind) (sub : bool) : MO nat :=
   bind (@get obs) (fun w : wld =>
   if is_singleton k && existsb (kind_eqb k) (subscribed_kinds w) then raise EValidation
   else
     let i := length (objs w) in
     bind (set_objs (fun os : list obs => os ++ [o_construct I (core w) k])) (fun _ =>
-    bind (subscribe i) (fun _ => ret i))).
+    if sub then bind (subscribe i) (fun _ => ret i) else ret i)).
+Definition new_observer (I : instance) (k : okind) : MO nat := new_observer_gen I k true.
 
 (** [create_or_get_observer]: the FIRST subscriber, in subscription order,
     that is an instance of the class and satisfies the condition. The
